@@ -5,6 +5,7 @@ import json
 import os
 import re
 
+import common
 from common import (HARNESS, Infra, go_test, harness_overlay, read_ndjson, run_tlc, write_ndjson)
 
 PKG = "internal/index/manager"
@@ -136,6 +137,9 @@ def run_schedules(ctx, scheds, tag="m", race=False, free=False, timeout=1500):
         rows.extend(got)
         if rc == 0:
             break
+        if race and "panic:" not in out and "fatal error:" not in out and ("WARNING: DATA RACE" in out or "race detected" in out) \
+                and "VERIF-SUMMARY" in out:
+            break                                   # the run completed; the race detector made it exit non-zero
         if "[build failed]" in out or "cannot find package" in out or re.search(r"^#.*\n.*\.go:\d+:\d+:", out, re.M):
             raise Infra("harness does not build against the current tree:\n" + out[-4000:])
         # which schedule was running?
@@ -303,6 +307,13 @@ def evaluate(ctx, pid, scheds, rows, crashes, states, trans, mc_notes, convs=())
                           {"schedule": by_sid.get(r["sid"]), "row": r})
     if fatal:
         raise Infra("harness could not drive the service: %s" % json.dumps(fatal[0])[:2000])
+    # C12: a restart on a crash copy that fails, panics or hangs
+    crash_rows = [r for r in rows if r["ev"]["a"] == "CrashRestart"]
+    for r in crash_rows:
+        if r["res"] != "ok" and pid == "C12":
+            ctx.violation("C12.Opens:%s:%s" % (r["ev"].get("what", ""), r["res"]),
+                          "restart on the directory left by a kill fails (%s): %s" % (r["res"], r.get("msg", "")[:300]),
+                          {"schedule": by_sid.get(r["sid"].split("#")[0]), "row": {k: r[k] for k in ("sid", "ev", "res", "msg")}})
     fails, nonconfs, consumed = validate(ctx, rows, convs)
     # staleness at rest is attributed to the step at which the stale entry first appeared
     first_strict = {}
@@ -341,6 +352,21 @@ def evaluate(ctx, pid, scheds, rows, crashes, states, trans, mc_notes, convs=())
                 "schedules, replayed on the real Manager through the verif hooks; non-trivial = an API call or another job's "
                 "completion happens between a job's start and its completion",
     }
+    if pid == "C12":
+        pts = {}
+        for r in crash_rows:
+            sched = by_sid.get(r["sid"].split("#")[0])
+            k = r["ev"].get("k", 0)
+            prev = sched["steps"][k - 2]["a"] if sched and 2 <= k <= len(sched["steps"]) + 1 else "?"
+            pts[(r["ev"].get("what", ""), prev)] = pts.get((r["ev"].get("what", ""), prev), 0) + 1
+        cov["crash_restarts"] = len(crash_rows)
+        cov["crash_points"] = sorted("%s after %s (%d)" % (w, a, n) for (w, a), n in pts.items())
+        cov["evaluations"] = len(crash_rows)
+        cov["distinct_nontrivial"] = len(pts)
+        cov["rule"] = ("one evaluation = one restart of the real Manager on a copy of the data directory taken at a TLC-chosen "
+                       "instant (optionally with the newest state/index file cut short); distinct = distinct (kind of cut, preceding action)")
+        return "fault_enumeration", cov, ["process kill only (the service never syncs; power loss is out of scope)",
+                                          "world of 3 captures / 3 UDP connections"]
     return "model_checking", cov, [
         "world of 3 captures / 3 UDP connections (harness/manager/world_test.go = ManagerMC.tla MCPieces)",
         "from-scratch truth uses the real query engine on a fresh view (engine correctness is C02-C04)",
@@ -360,3 +386,97 @@ def has_overlap(s):
         elif inflight and a not in ("ViewOpen", "ViewRelease"):
             return True
     return False
+
+
+# --------------------------------------------------------------------------- C20: data races
+
+REPO_ROOT = os.path.realpath(common.REPO)
+
+
+def parse_races(out):
+    """split go test output into race reports; signature = first non-harness /repo frame of each of the two accesses"""
+    reports = []
+    blocks = out.split("WARNING: DATA RACE")[1:]
+    for b in blocks:
+        b = b.split("==================")[0]
+        parts = re.split(r"\n(?=Previous (?:read|write) at |Goroutine \d+ \()", b)
+        accesses = [p for p in parts if re.match(r"\s*(Read|Write|Previous read|Previous write) at ", p.strip()) or p.strip().startswith(("Read at", "Write at"))]
+        sigs = []
+        for a in accesses[:2]:
+            frames = re.findall(r"\n\s+(\S+)\(.*?\)\n\s+(\S+?):(\d+)", "\n" + a)
+            pick, harness_only = None, True
+            for fn, path, line in frames:
+                if path.startswith(REPO_ROOT + "/internal/") or path.startswith(REPO_ROOT + "/cmd/"):
+                    if "zz_verif_" in path:
+                        continue
+                    harness_only = False
+                    pick = fn.split("/")[-1]
+                    pick = re.sub(r"\.func\d+(\.\d+)*", ".func", pick)
+                    pick = re.sub(r"^manager\.TestVerif\w+\.", "manager.", pick)
+                    break
+            sigs.append(pick or ("harness" if harness_only else "runtime"))
+        while len(sigs) < 2:
+            sigs.append("?")
+        reports.append({"sig": "|".join(sorted(sigs)), "text": b[:3000]})
+    return reports
+
+
+def run_c20(ctx):
+    nseeds, per = (3, 6) if ctx.quick() else (8, 30)
+    scheds = load_regress([])
+    seen = set()
+    uniq = []
+    for sc in scheds:
+        if sc["id"] not in seen and "Crash" not in [st["a"] for st in sc["steps"]]:
+            seen.add(sc["id"])
+            uniq.append(sc)
+    scheds = uniq
+    if os.environ.get("VERIF_ONLY_REGRESS") != "1":
+        for ci, pid in enumerate(["C06", "C16", "C13"]):
+            consts, maxlen = GEN[pid]
+            consts = dict(consts)
+            consts["Crashes"] = "FALSE"
+            convs = ["cv"] if '"cv"' in consts["ConvNames"] else []
+            hs = generate(ctx, consts, maxlen, per, maxlen + 5, [ctx.seed * 1000 + 100 * ci + i for i in range(nseeds)])
+            scheds += [to_schedule("g%d_%d" % (ci, i), h, convs=convs) for i, h in enumerate(hs)]
+    # gated: TLC's interleavings; free: no gates, API calls overlap with running jobs
+    rows_g, crashes_g, outs_g = run_schedules(ctx, scheds, tag="race_gated", race=True, timeout=3000)
+    rows_f, crashes_f, outs_f = run_schedules(ctx, scheds, tag="race_free", race=True, free=True, timeout=3000)
+    # extension: endpoint / listener / webhook goroutines (not schedule driven)
+    ov = harness_overlay(ctx, PKG, "manager")
+    rc_e, out_e = go_test(ctx, PKG, ov, "^TestVerifEndpoints$", env_extra={"VERIF_ENDPOINTS": "1"}, race=True, timeout=300)
+    if rc_e != 0 and "DATA RACE" not in out_e:
+        raise Infra("endpoint scenario failed:\n" + out_e[-3000:])
+    outs_f = outs_f + [out_e]
+    for c in crashes_g + crashes_f:
+        if c["panic"]:
+            ctx.notes.append("schedule %s crashed the process under -race" % c["sid"])
+    reports = []
+    for o in outs_g + outs_f:
+        reports += parse_races(o)
+    by_sig = {}
+    for r in reports:
+        by_sig.setdefault(r["sig"], []).append(r)
+    harness = [s for s in by_sig if set(s.split("|")) <= {"harness", "runtime", "?"}]
+    for sig, rs in sorted(by_sig.items()):
+        if sig in harness:
+            continue
+        ctx.violation("race:" + sig, "data race reported by the Go race detector (%d reports)" % len(rs), {"report": rs[0]["text"]})
+    if harness:
+        ctx.notes.append("race reports inside the harness only: %s" % harness)
+    acts = {}
+    for r in rows_g + rows_f:
+        acts[r["ev"]["a"]] = acts.get(r["ev"]["a"], 0) + 1
+    overlap = sum(1 for s in scheds if has_overlap(s))
+    cov = {
+        "evaluations": len(rows_g) + len(rows_f), "distinct_nontrivial": overlap,
+        "rule": "TLC-generated schedules of ManagerGen.tla (tags / converters / files configurations) and the regression schedules, "
+                "each executed twice on the real Manager built with -race: gated (TLC's interleaving of job completions and API "
+                "calls) and free-running (no gates: API calls overlap running jobs); evaluations = steps executed; "
+                "distinct_nontrivial = schedules in which a call or completion happens while another job is in flight",
+        "samples": [{"schedule": scheds[-1]["id"], "steps": [st["a"] for st in scheds[-1]["steps"]]}],
+        "schedules": len(scheds), "race_reports": len(reports), "distinct_signatures": sorted(by_sig),
+        "harness_only_signatures": harness, "actions_executed": acts,
+    }
+    return "exploration", cov, ["the verdict is the Go race detector's; it reports only races on executed interleavings",
+                                "gates add happens-before edges, therefore every schedule also runs free"]
